@@ -14,7 +14,9 @@ import (
 	"math/rand"
 	"os"
 	"path/filepath"
+	"runtime"
 	"sort"
+	"strconv"
 	"strings"
 	"sync"
 	"sync/atomic"
@@ -118,6 +120,56 @@ func (r *Run) Abort() {
 	r.finish(time.Since(r.t0).Seconds())
 	os.RemoveAll(scratchRoot)
 	os.Exit(0)
+}
+
+// harnessDeadline ends a run that does not come to an end by itself (a change to the code under test can make every
+// refresh queue up behind a mutex, or dead-lock): what was observed so far is written out, together with the harness
+// functions the run is stuck in, and the process exits non-zero, so the check reports the property as no longer shown
+// (with the violations found until then as the failing inputs).
+func harnessDeadline(r *Run) {
+	limit := 1500
+	if r.Thorough() {
+		limit = 5 * 3600
+	}
+	if v, err := strconv.Atoi(os.Getenv("VERIF_HARNESS_DEADLINE_S")); err == nil && v > 0 {
+		limit = v
+	}
+	time.Sleep(time.Duration(limit) * time.Second)
+	buf := make([]byte, 64<<20)
+	buf = buf[:runtime.Stack(buf, true)]
+	seen := map[string]int{}
+	for _, g := range strings.Split(string(buf), "\n\n") {
+		var fr []string
+		for _, l := range strings.Split(g, "\n") {
+			if strings.HasPrefix(l, "main.") || strings.Contains(l, "caddy-revocation-validator") && !strings.HasPrefix(l, "\t") && !strings.HasPrefix(l, "created by") {
+				if i := strings.Index(l, "("); i > 0 && !strings.HasPrefix(l, "main.") {
+					l = l[:strings.LastIndex(l, "(")]
+				} else if i := strings.LastIndex(l, "("); i > 0 {
+					l = l[:i]
+				}
+				fr = append(fr, l[strings.LastIndex(l, "/")+1:])
+			}
+			if len(fr) == 4 {
+				break
+			}
+		}
+		if len(fr) > 0 {
+			seen[strings.Join(fr, " < ")]++
+		}
+	}
+	var where []string
+	for k, n := range seen {
+		where = append(where, fmt.Sprintf("%dx %s", n, k))
+	}
+	sort.Strings(where)
+	if len(where) > 12 {
+		where = where[:12]
+	}
+	r.Note(fmt.Sprintf("harness deadline of %d s reached; goroutines in: %s", limit, strings.Join(where, " | ")))
+	fmt.Fprintf(os.Stdout, "HARNESS-DEADLINE %d s; stuck in: %s\n", limit, strings.Join(where, " | "))
+	r.finish(time.Since(r.t0).Seconds())
+	os.RemoveAll(scratchRoot)
+	os.Exit(4)
 }
 
 func (r *Run) finish(wall float64) {
@@ -241,6 +293,7 @@ func main() {
 	t0 := time.Now()
 	r.t0 = t0
 	code := 0
+	go harnessDeadline(r)
 	func() {
 		defer func() {
 			if p := recover(); p != nil {
